@@ -6,7 +6,10 @@
 // reflection decoder of the proxy fills a list item by item), and every signal
 // and property is driven through the subscriber histories of one session
 // (one subscriber; two together; two leaving in either order followed by a
-// third): every emission must arrive exactly once, in order.
+// third): every emission must arrive exactly once, in order. Object-typed
+// positions (parameters, results and signal payloads whose type is an interface
+// of the package) are driven with objects hosted by the client, by the called
+// service and by another service: see objects.go.
 package drv
 
 import (
@@ -47,11 +50,18 @@ type Interface struct {
 	NewObject func(h *Handler) bus.Actor
 	NewProxy  func(s bus.Session) (interface{}, error)
 	Actions   []Action
+	// object family: the generated <X>Proxy interface type and the generated
+	// constructor Create<X>(session, service, impl) of further objects of this
+	// interface (nil when the generated code has none of that shape)
+	ProxyType reflect.Type
+	Create    func(s bus.Session, svc bus.Service, h *Handler, tag string) (interface{}, error)
+	Wrap      func(s bus.Session, p bus.Proxy) interface{} // Make<X>
 }
 
 type record struct {
 	Itf, Method string
 	Args        []interface{}
+	Uses        []use // what the implementation got from the objects among its arguments
 }
 
 // Handler is what the generated implementation shims call.
@@ -60,27 +70,76 @@ type Handler struct {
 	calls   []record
 	ret     *reflect.Value
 	helpers map[string]interface{}
+	// object family (objects.go)
+	acts     map[string]bus.Activation // interface -> activation of the object registered as the service
+	instVal  map[string]int32          // tag of an object created by the driver -> what its value() returns
+	objCalls []string                  // tags of the created objects whose implementation was invoked, in order
+	retMake  func(args []interface{}) (reflect.Value, error)
 }
 
 // Call records an invocation of the implementation and fills *ret with the
-// value the driver wants the implementation to return.
-func (h *Handler) Call(itf, method string, args []interface{}, ret interface{}) {
+// value the driver wants the implementation to return. tag is "" for the
+// object registered as the service; for an object created by the driver
+// (objects.go) the invocation is recorded under its tag and value() returns the
+// object's own number. An implementation that was handed objects uses each of
+// them (value()) before it returns and fails with the first error it got.
+func (h *Handler) Call(tag, itf, method string, args []interface{}, ret interface{}) error {
+	if tag != "" {
+		h.mu.Lock()
+		h.objCalls = append(h.objCalls, tag)
+		v, ok := h.instVal[tag]
+		h.mu.Unlock()
+		if p, isInt := ret.(*int32); isInt && ok && method == "Value" {
+			*p = v
+			return nil
+		}
+		// any other method of a created object (the self-referencing
+		// interface): it behaves like the service's own object
+	}
 	h.mu.Lock()
-	defer h.mu.Unlock()
-	h.calls = append(h.calls, record{itf, method, args})
-	if ret != nil && h.ret != nil {
-		rv := reflect.ValueOf(ret).Elem()
-		if h.ret.Type().AssignableTo(rv.Type()) {
-			rv.Set(*h.ret)
+	preset, retMake := h.ret, h.retMake
+	h.mu.Unlock()
+	// not under the lock: using an object re-enters Call (same process)
+	uses, err := useAll(args)
+	h.mu.Lock()
+	h.calls = append(h.calls, record{itf, method, args, uses})
+	h.mu.Unlock()
+	if err != nil {
+		return err
+	}
+	if ret == nil {
+		return nil
+	}
+	rv := reflect.ValueOf(ret).Elem()
+	switch {
+	case isObjectType(rv.Type()) && retMake != nil:
+		v, err := retMake(args)
+		if err != nil {
+			return err
+		}
+		if v.Type().AssignableTo(rv.Type()) {
+			rv.Set(v)
+		}
+	case len(uses) > 0 && rv.Kind() == reflect.Int32:
+		rv.SetInt(int64(combine(uses)))
+	case preset != nil:
+		if preset.Type().AssignableTo(rv.Type()) {
+			rv.Set(*preset)
 		}
 	}
+	return nil
 }
 
-// Activated stores the signal helper handed to the implementation.
-func (h *Handler) Activated(itf string, helper interface{}) {
+// Activated stores the signal helper and the activation handed to the
+// implementation registered as the service (tag "").
+func (h *Handler) Activated(tag, itf string, act bus.Activation, helper interface{}) {
+	if tag != "" {
+		return
+	}
 	h.mu.Lock()
 	defer h.mu.Unlock()
 	h.helpers[itf] = helper
+	h.acts[itf] = act
 }
 
 func (h *Handler) reset(ret *reflect.Value) {
@@ -88,6 +147,8 @@ func (h *Handler) reset(ret *reflect.Value) {
 	defer h.mu.Unlock()
 	h.calls = nil
 	h.ret = ret
+	h.objCalls = nil
+	h.retMake = nil
 }
 
 func (h *Handler) snapshot() []record {
@@ -257,7 +318,13 @@ func Vals(t reflect.Type) []reflect.Value {
 		}
 		return out
 	case reflect.Interface, reflect.Ptr:
-		// object proxies and other interfaces: not driven (one nil value)
+		if isObjectType(t) && objVals != nil {
+			// an object of the package: one per hosting side (objects.go)
+			if vs := objVals(t, -1); len(vs) > 0 {
+				return vs
+			}
+		}
+		// other interfaces: not driven (one nil value)
 		return []reflect.Value{reflect.Zero(t)}
 	}
 	return []reflect.Value{reflect.Zero(t)}
@@ -428,6 +495,9 @@ func Equal(a, b reflect.Value) bool {
 	if a.Type() != b.Type() {
 		return false
 	}
+	if isObjectType(a.Type()) {
+		return sameObject(a, b)
+	}
 	if a.Type() == valueType {
 		if a.IsNil() || b.IsNil() {
 			return a.IsNil() == b.IsNil()
@@ -502,6 +572,9 @@ func show(v reflect.Value) string {
 	if !v.CanInterface() {
 		return fmt.Sprint(v)
 	}
+	if holdsObject(v.Type()) {
+		return showObjects(v)
+	}
 	s := fmt.Sprintf("%#v", v.Interface())
 	if len(s) > 200 {
 		s = s[:200] + "..."
@@ -544,6 +617,12 @@ type Result struct {
 	// subscriber histories executed (see histories) and emissions made in them
 	Histories     int `json:"histories,omitempty"`
 	HistoryEvents int `json:"history_events,omitempty"`
+	// object family: value cases by "<position>/<hosting side>" (argument,
+	// result, payload, property x client, service, other-service; an aliased
+	// pair counts as argument/same-object-twice) and the uses of an object
+	// (value() through the proxy that crossed the wire) that were checked
+	Objects    map[string]int `json:"objects,omitempty"`
+	ObjectUses int            `json:"object_uses,omitempty"`
 }
 
 func (r *runner) nested(pos string, vs ...reflect.Value) {
@@ -611,11 +690,12 @@ func errOf(out []reflect.Value) error {
 }
 
 type runner struct {
-	h     *Handler
-	itf   Interface
-	proxy reflect.Value
-	res   *Result
-	seen  map[string]bool
+	h       *Handler
+	itf     Interface
+	proxy   reflect.Value
+	res     *Result
+	seen    map[string]bool
+	session bus.Session
 }
 
 func (r *runner) fail(failure, detail, what, cs string) {
@@ -644,6 +724,15 @@ func (r *runner) method(a Action) {
 	}
 	if mt.NumIn() != a.NParams {
 		r.fail("proxy-arity", fmt.Sprint(mt.NumIn()), fmt.Sprintf("proxy method %s takes %d parameters, IDL declares %d", a.ProxyName, mt.NumIn(), a.NParams), "")
+		return
+	}
+	objects := mt.NumOut() == 2 && holdsObject(mt.Out(0))
+	for _, t := range in {
+		objects = objects || holdsObject(t)
+	}
+	if objects {
+		// object-typed positions: hosting sides, judged by use (objects.go)
+		r.objectMethod(a, m, in)
 		return
 	}
 	void := mt.NumOut() == 1
@@ -1087,6 +1176,11 @@ func (r *runner) signal(a Action) {
 	for i := 0; i < em.Type().NumIn(); i++ {
 		in = append(in, em.Type().In(i))
 	}
+	if curCtx != nil {
+		// objects in a payload are what the service emits: hosted by itself or
+		// by another service (objects.go)
+		curCtx.mode = "payload"
+	}
 	emit := func(args []reflect.Value, cs string) bool {
 		out, pmsg, to := callT(em, args)
 		if to {
@@ -1118,6 +1212,7 @@ func (r *runner) signal(a Action) {
 			}
 			r.res.Cases++
 			r.nested("payload", args...)
+			r.countObjects("payload", args)
 			if !emit(args, cs) {
 				return
 			}
@@ -1173,6 +1268,7 @@ func (r *runner) property(a Action) {
 		}
 		r.res.Cases++
 		r.nested("property", v)
+		r.countObjects("property", []reflect.Value{v})
 		r.h.reset(nil)
 		out, pmsg, to := callT(set, []reflect.Value{v})
 		if to {
@@ -1306,7 +1402,8 @@ func Main(itfs []Interface) {
 	if err != nil {
 		fatal("server: %v", err)
 	}
-	h := &Handler{helpers: map[string]interface{}{}}
+	h := &Handler{helpers: map[string]interface{}{}, acts: map[string]bus.Activation{}, instVal: map[string]int32{}}
+	registerObjectTypes(itfs)
 	for _, itf := range itfs {
 		if _, err := server.NewService(itf.Service, itf.NewObject(h)); err != nil {
 			fatal("register %s: %v", itf.Service, err)
@@ -1339,7 +1436,9 @@ func Main(itfs []Interface) {
 			}
 			enc.Encode(map[string]string{"begin": key})
 			res := &Result{Itf: itf.Name, Atom: a.Atom, Kind: a.Kind, IDLName: a.IDLName}
-			r := &runner{h: h, itf: itf, proxy: pv, res: res, seen: map[string]bool{}}
+			r := &runner{h: h, itf: itf, proxy: pv, res: res, seen: map[string]bool{}, session: session}
+			r.objectContext()
+			uses := usesSoFar()
 			switch a.Kind {
 			case "method":
 				r.method(a)
@@ -1348,6 +1447,7 @@ func Main(itfs []Interface) {
 			case "property":
 				r.property(a)
 			}
+			res.ObjectUses = usesSoFar() - uses
 			enc.Encode(res)
 		}
 	}
